@@ -66,7 +66,7 @@ func genC18(rt *rapid.T) interface{} {
 		seenN[h] = true
 		sc.Names = append(sc.Names, h)
 	}
-	n := rapid.IntRange(1, 14).Draw(rt, "nops")
+	n := rapid.IntRange(1, tierScale(14)).Draw(rt, "nops")
 	for i := 0; i < n; i++ {
 		op := C18Op{Kind: rapid.SampledFrom(c18Kinds).Draw(rt, "kind"), Key: rapid.IntRange(0, 3).Draw(rt, "k"), Suf: rapid.IntRange(0, len(c18Suffixes)-1).Draw(rt, "suf")}
 		switch rapid.IntRange(0, 2).Draw(rt, "lk") {
